@@ -6,6 +6,7 @@ CONSTANTS
   I = 4
   MaxTx = 3
   MaxCrashes = 2
+  MaxCancels = 1
   EarlyFlush = FALSE
   FixH15 = TRUE
   FixH20 = TRUE
